@@ -330,7 +330,7 @@ Fixpoint get_frames (fuel : list N) (k : N) (l : list N) : option (list (list by
   match fuel with
   | [] => None
   | _ :: fuel' =>
-    match getls l with
+    match fgetls l with
     | None => None
     | Some (f, r) => option_map (cons f) (get_frames fuel' (N.pred k) r)
     end
@@ -350,7 +350,7 @@ Definition run (cs : list N) : list N :=
       | None => bad_case
       end
   | 2 :: param :: t =>
-      match get_pkts t with
+      match fget_pkts t with
       | Some (ps, _) =>
           let '(d, rs) := dec_run (cfg_of_param param) dinit ps in
           concat (map put_res rs) ++ [fst (retained d); snd (retained d)]
